@@ -13,25 +13,25 @@ COMMON_ASSUMPTIONS = [
 ]
 
 PROPS = {
-    "C01": {"obligations": ["Errors"],
+    "C01": {"obligations": ["Errors", "WriteSet"],
             "claim": "Proof (Lean 4): for every flag, context and store the model terminates (fuel never exhausted), every result satisfies the well-formedness trichotomy, error kinds are only MALFORMED_FLAG / USER_NOT_SPECIFIED, an invalid context consults nothing. Tied to /repo by the differential correspondence (panic/crash isolation, WellFormed evaluated on Go's own results) and the error-table obligation."},
-    "C02": {"obligations": [],
+    "C02": {"obligations": ["WriteSet"],
             "claim": "Proof (Lean 4): the stateless spec decides by the first applicable stage (off, first unmet prerequisite, first matching target, first matching rule with its index and id, fallthrough); fixed variation ignores the rollout; the code-shaped model refines the spec (Refine.lean). Tied by correspondence on value/index/reason kind/rule index+id/prerequisite key."},
-    "C03": {"obligations": [],
+    "C03": {"obligations": ["WriteSet"],
             "claim": "Proof (Lean 4): target matching is exact key membership for the list's kind, first match in listed order, legacy-only vs context-target iteration with the keyless-user fallback, lookup tables transparent. Tied by correspondence on TARGET_MATCH and index over both flag forms."},
-    "C04": {"obligations": ["Operators"],
+    "C04": {"obligations": ["Operators", "WriteSet"],
             "claim": "Proof (Lean 4): a clause matches iff the context of its kind has the attribute and some (value-or-element, clause value) pair satisfies the typed operator table `Sat`; negation only when the attribute exists; kind clauses; undefined/invalid references are errors of kind MALFORMED_FLAG. RE2 via an oracle filled from Go's regexp. Tied by operator-probe correspondence and the operator-table obligation."},
-    "C05": {"obligations": [],
+    "C05": {"obligations": ["WriteSet"],
             "claim": "Proof (Lean 4): regular segment membership = included, else not excluded and first matching rule with the weight threshold (missing rollout kind: no match); segment-match clause = any-of over existing segments with negation (under the data-model hypothesis of the property text for the per-kind lists). Tied by segment-stream correspondence."},
-    "C06": {"obligations": ["Consts"],
+    "C06": {"obligations": ["Consts", "WriteSet"],
             "claim": "Proof (Lean 4): hash-input layout byte-exact as concatenation for every buffer capacity, 15 hex digits without wrap-around, bucket = float32(v)/2^60 in [0,1], zero/err cases, experiments bucket by key. SHA-1 itself is tested against crypto/sha1 on every case (not proved FIPS). Tied by bit-exact unit correspondence (hook) and public-API rollouts."},
-    "C07": {"obligations": ["Consts"],
+    "C07": {"obligations": ["Consts", "WriteSet"],
             "claim": "Proof (Lean 4): the scan returns the first bucket whose single-precision cumulative threshold exceeds b, else the last; always a listed variation; a zero-weight bucket is never chosen by the scan; growing a bucket never moves a context out of it; same for weighted segment rules. Rests on proved monotonicity/idempotence of float32 rounding (soft-float over rationals). Tied by boundary-placed rollouts."},
-    "C08": {"obligations": [],
+    "C08": {"obligations": ["WriteSet"],
             "claim": "Proof (Lean 4): inExperiment iff experiment rollout, chosen bucket tracked, context has the kind — on both exits of the selection; IsExperiment iff inExperiment or legacy tracking flags; false for off/target/prerequisite-failed/error. Tied by correspondence on the experiment bits of results and events. A defect on the fallback exit was repaired (fix: b6345ab)."},
     "C09": {"obligations": ["WriteSet"],
             "claim": "Proof (Lean 4): one-step characterisation of the prerequisite loop (met iff exists, on, exact variation), laziness, one event per completed nested evaluation in post-order, error details recorded, every recorded result equals the standalone evaluation of that flag (chain weakening + fuel monotonicity). Tied by correspondence on events, lookups and result."},
-    "C10": {"obligations": ["Stack"],
+    "C10": {"obligations": ["Stack", "WriteSet"],
             "claim": "Proof (Lean 4): termination for every reference graph (pigeonhole on duplicate-free chains), re-entry aborts as MALFORMED_FLAG with no event for aborted frames, a cycle is reported only for a key on the current path (diamonds are not). Tied by graph-shape correspondence to depth 60 with crash/timeout isolation and the stack-by-value obligation."},
     "C11": {"obligations": ["Status", "WriteSet"],
             "claim": "Proof (Lean 4): big-segment membership by provider answer under <key>.g<generation>, missing kind / generation cases, status = worst seen and present only if queried or NOT_CONFIGURED, provider queried at most once per context key. Tied by correspondence on status, query and membership-check logs. A double query through prerequisites was repaired (fix: 68555c1)."},
@@ -49,9 +49,9 @@ PROPS = {
             "claim": "Proof (Lean 4) on JSON trees: unknown members ignored, member order irrelevant, omitted = default, null = omission for exactly the listed positions, rollout variations null rejected. Tied by the same relations on the real decoder, decoder-model correspondence on corrupted/duplicated documents, and byte-level robustness runs (never panics, error => zero value, destination untouched). Tokenisation of arbitrary bytes is fuzzed, not proved."},
     "C18": {"obligations": [],
             "claim": "Proof (Lean 4): parse(render s) = the instant s denotes for every valid RFC 3339 stamp (years 0000-9999, offsets to ±99:59, 0-9 fraction digits, both cases), every proper prefix rejected, numeric milliseconds exact, before/after = strict order of instants, string and number forms interchangeable, calendar arithmetic validated for all years. Tied by exact (ns) unit correspondence at all three conversion sites. An overflow after 2262 was repaired (fix: b8e6147)."},
-    "C19": {"obligations": ["Errors"],
+    "C19": {"obligations": ["Errors", "WriteSet"],
             "claim": "Proof (Lean 4): an error result with a logger configured always logged a MALFORMED_FLAG-class line naming the detecting flag; no logger, no lines; the logger option changes nothing else; a clean flag without prerequisites logs nothing; segments never log. Tied by correspondence on canonical log lines over malformations at every nesting position."},
-    "C20": {"obligations": [],
+    "C20": {"obligations": ["WriteSet"],
             "claim": "Proof (Lean 4): metadata never read, appended rules after the deciding one ignored, inserted dead rule only shifts the index, value/key/clause order irrelevant (all-of / any-of), unreferenced attributes and kinds invisible to lookups. Tied by seven perturbation relations evaluated oracle-free on the real code plus model agreement. Open finding F6 (clause order vs big-segment status) is listed in KNOWN_FINDINGS.txt."},
 }
 
